@@ -533,20 +533,26 @@ def calls_under(body, tb, env, start=0, stop_blocks=()):
     return out
 
 
+def visit_terms(t, pred, out, depth=0, stripped=False):
+    """Collect into `out` the distinct stripped sub-terms of t satisfying pred, looking into the closures given to Option/Result
+    combinators (their parameter bound to the payload, their captures substituted)."""
+    for x in walk(t):
+        if isinstance(x, tuple) and x and isinstance(x[0], str) and pred(strip_sites(x) if stripped else x):
+            sx = strip_sites(x)
+            if sx not in out:
+                out.append(sx)
+        if depth < 2 and isinstance(x, tuple) and x and x[0] == 'call' and call_name(x) in ('map_or', 'is_some_and', 'is_none_or', 'map', 'and_then', 'filter') and x[2]:
+            clo = x[2][-1]
+            cv = closure_value(clo, {('param', 2): ('vfield', x[2][0], 'Some', '0')})
+            if cv is not None:
+                visit_terms(cv, pred, out, depth + 1, stripped)
+
+
 def find_terms(body, tb, pred):
     """All distinct (stripped) sub-terms satisfying pred among switch discriminants and call arguments of the body."""
     out = []
     def visit(t, depth=0):
-        for x in walk(t):
-            if isinstance(x, tuple) and x and isinstance(x[0], str) and pred(x):
-                sx = strip_sites(x)
-                if sx not in out:
-                    out.append(sx)
-            if depth < 2 and isinstance(x, tuple) and x and x[0] == 'call' and call_name(x) in ('map_or', 'is_some_and', 'is_none_or', 'map', 'and_then', 'filter') and x[2]:
-                clo = x[2][-1]
-                cv = closure_value(clo, {('param', 2): ('vfield', x[2][0], 'Some', '0')})
-                if cv is not None:
-                    visit(cv, depth + 1)
+        visit_terms(t, pred, out, depth)
     for bi in body.normal_blocks():
         t = body.term(bi)
         if not t:
@@ -1008,11 +1014,7 @@ class ForAll:
             elif t['k'] == 'call':
                 ts.extend(self.tb.operand_term(a, bi, n) for a in t['args'])
             for tt in ts:
-                for x in walk(tt):
-                    if isinstance(x, tuple) and x and isinstance(x[0], str) and pred(strip_sites(x)):
-                        sx = strip_sites(x)
-                        if sx not in out:
-                            out.append(sx)
+                visit_terms(tt, pred, out, 0, stripped=True)
         return out
 
     def values(self, env):
@@ -1269,4 +1271,153 @@ def first_index(F, body, tb, opt_term):
                 if h in body.reachable(hb, removed_blocks=[]) and hb in region:
                     continue      # the hit does not leave the loop
                 return FirstIndex(F, body, tb, 'loop', coll, header=h, some=some[0], region=region, hit=hb, term=st)
+    return None
+
+
+# ---------------------------------------------------------------- searches (any / find / loop with early exit) and selections (filter / conditional push)
+class Search(FirstIndex):
+    """`C.iter().any(|e| P(e))` or a loop over C that sets the result to true / returns on the first element with P(e)."""
+    pass
+
+
+def bool_search(F, body, tb=None):
+    """For a bool-returning body: the search it performs, or None.  -> Search with .coll, .elem, .atoms, .hit_values"""
+    tb = tb or TermBuilder(F, body)
+    rt = strip_sites(detry(return_term_of(F, body)))
+    a = m_call(rt, name='any', trait='Iterator')
+    if a is not None and len(a) == 2 and a[1][0] == 'closure':
+        return Search(F, body, tb, 'closure', strip_sites(elem_source(a[0])), clo=a[1], term=rt)
+    # loop form: `true` is produced inside the loop (and leaves it), `false` only behind the exhausted edge
+    carriers = {0}
+    changed = True
+    while changed:
+        changed = False
+        for bl in body.blocks:
+            for st in bl['stmts']:
+                if st['k'] == 'assign' and not st['place']['p'] and st['place']['l'] in carriers and st['rv']['k'] == 'use' \
+                        and st['rv']['op'].get('k') in ('move', 'copy') and not st['rv']['op']['place']['p'] and st['rv']['op']['place']['l'] not in carriers:
+                    carriers.add(st['rv']['op']['place']['l'])
+                    changed = True
+    trues, falses, others = [], [], []
+    for bi in body.normal_blocks():
+        for si, st in enumerate(body.blocks[bi]['stmts']):
+            if st['k'] == 'assign' and not st['place']['p'] and st['place']['l'] in carriers:
+                rv = st['rv']
+                if rv['k'] == 'use' and rv['op'].get('k') == 'const' and 'bool' in rv['op']:
+                    (trues if rv['op']['bool'] else falses).append(bi)
+                elif rv['k'] == 'use' and rv['op'].get('k') in ('move', 'copy') and not rv['op']['place']['p'] and rv['op']['place']['l'] in carriers:
+                    pass
+                else:
+                    others.append(bi)
+        t = body.term(bi)
+        if t and t['k'] == 'call' and not t['dest']['p'] and t['dest']['l'] in carriers:
+            others.append(bi)
+    if others or len(trues) != 1 or not falses:
+        return None
+    hit = trues[0]
+    for h in loop_headers(body):
+        t = body.term(h)
+        some = [bb for v, bb in t['targets'] if v == 1]
+        none = [bb for v, bb in t['targets'] if v == 0]
+        if len(some) != 1 or len(none) != 1:
+            continue
+        inside = body.reachable(some[0], removed_blocks=[h])
+        region = {b for b in inside if h in body.reachable(b)}
+        if hit not in inside or hit in region:
+            continue
+        behind = body.reachable(none[0])
+        if not all(f in behind and f not in inside for f in falses):
+            continue
+        dt = tb.operand_term(t['discr'], h, len(body.blocks[h]['stmts']))
+        if not (dt[0] == 'discr' and dt[1][0] == 'next'):
+            continue
+        return Search(F, body, tb, 'loop', strip_sites(dt[1][1]), header=h, some=some[0], region=region, hit=hit, term=rt)
+    return None
+
+
+class Selection:
+    """`C.into_iter().filter(|e| P(e)).collect()` or `for e in C { if P(e) { v.push(e) } }` (optionally with a map of the kept element)."""
+
+    def __init__(self, F, body, tb, kind, coll, **kw):
+        self.F, self.body, self.tb, self.kind, self.coll = F, body, tb, kind, coll
+        self.__dict__.update(kw)
+        self.elem = ('param', 2) if kind == 'closure' else ('elem', coll)
+
+    def atoms(self, pred):
+        if self.kind == 'closure':
+            return closure_atoms(self.F, self.clo[1], pred)
+        return ForAll.atoms(self, pred)
+
+    def keep_values(self, env):
+        if self.kind == 'closure':
+            vals, _ = closure_return_values(self.F, self.clo[1], env)
+            if vals is None or None in vals:
+                return {True, False}
+            return set(vals)
+        R = reach_under(self.body, self.tb, env, start=self.some, stop_blocks=[self.header, self.push])
+        out = set()
+        if self.push in R:
+            out.add(True)
+        if self.header in R:
+            out.add(False)
+        return out
+
+    def captured(self, t):
+        if self.kind == 'closure' and isinstance(t, tuple) and t and t[0] == 'upvar' and t[1] < len(self.clo[2]):
+            return strip_sites(self.clo[2][t[1]])
+        return t
+
+
+def selection(F, body, tb, vec_term, use_block=None):
+    """Recognise a vector term as a selection of the elements of a collection. -> Selection (with .value: the kept element's image) or None"""
+    t = detry(vec_term)
+    col = m_call(t, name='collect', trait='Iterator')
+    if col is not None:
+        it = col[0]
+        mapped = None
+        mp = m_call(it, name='map', trait='Iterator')
+        if mp is not None:
+            mapped = mp[1]
+            it = mp[0]
+        fl = m_call(it, name='filter', trait='Iterator')
+        if fl is not None and fl[1][0] == 'closure':
+            coll = strip_sites(elem_source(fl[0]))
+            value = ('elem', coll)
+            if mapped is not None:
+                value = _apply_callable(mapped, value)
+                if value is None:
+                    return None
+            return Selection(F, body, tb, 'closure', coll, clo=fl[1], value=strip_sites(_norm_elem(detry(value))))
+        return None
+    if t[0] == 'phi':
+        init = [a for a in t[1] if not has_free_rec(a)]
+        loop = [a for a in t[1] if has_free_rec(a)]
+        if len(init) == 1 and len(loop) == 1 and seq_parts(init[0], literal_only=True) == []:
+            a = loop[0]
+            if a[0] == 'mut' and call_name(a) == 'push' and a[2] == 0 and len(a[3]) == 2 and a[3][0] == ('rec',) and len(a) > 4 and a[4][0] == body.path:
+                push_block = a[4][1]
+                heads = [h for h in loop_headers(body) if body.dominates(h, push_block) and h in body.reachable(push_block)]
+                heads = [h for h in heads if all(body.dominates(o, h) for o in heads)]
+                if len(heads) != 1:
+                    return None
+                h = heads[0]
+                tt = body.term(h)
+                some = [bb for v, bb in tt['targets'] if v == 1]
+                if len(some) != 1:
+                    return None
+                dt = tb.operand_term(tt['discr'], h, len(body.blocks[h]['stmts']))
+                if not (dt[0] == 'discr' and dt[1][0] == 'next'):
+                    return None
+                coll = strip_sites(dt[1][1])
+                inside = body.reachable(some[0], removed_blocks=[h])
+                region = {b for b in inside if h in body.reachable(b)}
+                # no way to the consumer that skips the rest of the collection
+                if use_block is not None:
+                    away = reach_under(body, tb, {}, start=some[0], stop_blocks=[h])
+                    if use_block in away and use_block != push_block:
+                        return None
+                # at most one push per iteration
+                if push_block in body.reachable(body.succ(push_block)[0], removed_blocks=[h]) if body.succ(push_block) else False:
+                    return None
+                return Selection(F, body, tb, 'loop', coll, header=h, some=some[0], region=region, push=push_block, value=strip_sites(_norm_elem(detry(a[3][1]))))
     return None
